@@ -11,7 +11,7 @@ case = {
          src = ['none'] | ['utxo', uid] | ['script', sid];   rdm = {rid, tag: null|int, data: hexcbor, units: null|[mem, steps]}
   mint: [[policy hex28, [[name hex, qty], ...]], ...] (dict order),  wdrl: [[account hex29, coin], ...] (dict order),
   build: {change: hex28 key hash, use_map: bool, vstart: null|int, ttl: null|int, off_start: null|int, off_ttl: null|int,
-          mem_buf: float, step_buf: float},
+          mem_buf: float, step_buf: float, pay: [coin, ...] plain outputs (force coin selection)},
   eval: {rid(str): [mem, steps]}   raw evaluator answers (before buffers), served by evaluate_tx_cbor keyed by the
                                     (tag, index) each redeemer carries in the transaction it is given,
   cost_models: {'PlutusV1': {name: int}, ...} (languages may be missing)
@@ -19,7 +19,8 @@ case = {
 result = {stage: 'ops' | 'build' | 'done', op: index of the failing op, err: kind | null,
           tx: hex of build_and_sign(...).to_cbor(), wits_nodup: hex of build_witness_set(False).to_cbor(),
           rl: [[rid, tag, index, mem, steps], ...] the builder's _redeemer_list after the build,
-          script_hashes: [hex28 per sid as pycardano.script_hash computes it], evals: number of evaluate calls}
+          script_hashes: [hex28 per sid as pycardano.script_hash computes it], evals: number of evaluate calls,
+          n_inputs: number of inputs of the body}
 """
 from _pre import *
 from fractions import Fraction
@@ -175,6 +176,8 @@ def handler(case, payload):
         for k, v in case['wdrl']:
             w[bytes.fromhex(k)] = v
         b.withdrawals = w
+    for coin in B.get('pay', []):
+        b.add_output(TransactionOutput(mk_addr(False, 'ab' * 28, net), Value(coin)))
     if case.get('native'):
         b.native_scripts = [scripts[s] for s in case['native']]
     rids = {}
@@ -236,7 +239,7 @@ def handler(case, payload):
                rl=[[rids.get(id(r), -1), r.tag.value if r.tag is not None else -1, r.index,
                     r.ex_units.mem if r.ex_units is not None else -1,
                     r.ex_units.steps if r.ex_units is not None else -1] for r in b._redeemer_list],
-               evals=ctx.evals)
+               evals=ctx.evals, n_inputs=len(tx.transaction_body.inputs))
     return res
 
 
